@@ -364,12 +364,14 @@ theorem StoreInv_applyOp {st st' : Store} (inv : StoreInv st) (o : StoreOp) (h :
   | commit t => exact StoreInv_applyTx inv t h
   | lock keys => simp only [applyOp] at h; cases h; exact StoreInv_lock inv keys
   | markReverted id a => simp only [applyOp] at h; cases h; exact StoreInv_markReverted inv id a
+  | saveAccountMeta a at_ md => simp only [applyOp] at h; cases h; exact ⟨inv.wf, inv.av, inv.pcv, inv.net⟩
 
 theorem applyOp_total (st : Store) (o : StoreOp) : ∃ st', applyOp st o = .ok st' := by
   cases o with
   | commit t => obtain ⟨m, a, h⟩ := applyTx_ok (st := st) t; exact ⟨_, h⟩
   | lock keys => exact ⟨_, rfl⟩
   | markReverted id a => exact ⟨_, rfl⟩
+  | saveAccountMeta a at_ md => exact ⟨_, rfl⟩
 
 theorem runOpsFrom_total (ops : List StoreOp) (st : Store) : ∃ st', runOpsFrom st ops = .ok st' := by
   induction ops generalizing st with
